@@ -233,6 +233,11 @@ where
     C: 'a,
 {
     fn from_tlv(element: &TLVElement<'a>) -> Result<Self, Error> {
+        if !element.is_empty() {
+            // `iter()` relies on the element being a container
+            element.container()?;
+        }
+
         Ok(Self::new_unchecked(element.clone()))
     }
 }
